@@ -529,6 +529,8 @@ impl RelationSet {
 /// Note that n may be different from the original sieve modulus
 /// which includes the multiplier.
 pub fn final_step(n: &Uint, fb: &FBase, rels: &[Relation], verbose: Verbosity) -> Vec<Uint> {
+    #[cfg(yamaquasi_verif)]
+    verif_hooks::observe_final_step(n, fb, rels);
     // The traditional terminology is that:
     // - a row refers to a relation (row elements are exponents of small primes)
     // - a column refers to a prime (the weight is the number of relations containing that prime)
@@ -661,6 +663,8 @@ pub fn final_step(n: &Uint, fb: &FBase, rels: &[Relation], verbose: Verbosity) -
             dt.as_secs_f64()
         );
     }
+    #[cfg(yamaquasi_verif)]
+    verif_hooks::observe_kernel(&k);
     let mut divisors = vec![];
     let mut nontrivial = 0;
     let zn = ZmodN::new(*n);
@@ -721,6 +725,8 @@ pub fn final_step(n: &Uint, fb: &FBase, rels: &[Relation], verbose: Verbosity) -
             nontrivial
         );
     }
+    #[cfg(yamaquasi_verif)]
+    verif_hooks::observe_divisors(&divisors);
     divisors
 }
 
@@ -1066,6 +1072,67 @@ pub mod verif_hooks {
             s.n_doubles,
             s.n_combined12
         )
+    }
+
+    // Observer of `final_step`: inputs, kernel vectors (indices of the filtered relations) and result.
+    static FINAL: Mutex<Option<Vec<String>>> = Mutex::new(None);
+
+    pub fn final_start() {
+        *FINAL.lock().unwrap() = Some(vec![]);
+    }
+
+    pub fn final_take() -> Vec<String> {
+        FINAL.lock().unwrap().take().unwrap_or_default()
+    }
+
+    fn final_push(f: impl FnOnce() -> String) {
+        let mut g = match FINAL.lock() {
+            Ok(g) => g,
+            Err(e) => e.into_inner(),
+        };
+        if let Some(log) = g.as_mut() {
+            log.push(f());
+        }
+    }
+
+    /// `step|<n>|<p,p,..>|<rel;rel;..>`
+    pub fn observe_final_step(n: &Uint, fb: &FBase, rels: &[Relation]) {
+        final_push(|| {
+            let ps: Vec<String> = fb.primes.iter().map(|p| p.to_string()).collect();
+            let rs: Vec<String> = rels.iter().map(rel_token).collect();
+            format!("step|{n}|{}|{}", ps.join(","), rs.join(";"))
+        });
+    }
+
+    /// `kernel|<i,i,..;i,i,..>` (`-` = empty vector)
+    pub fn observe_kernel(k: &[BitVec]) {
+        final_push(|| {
+            let vs: Vec<String> = k
+                .iter()
+                .map(|v| {
+                    let idx: Vec<String> = v
+                        .clone()
+                        .into_usizes()
+                        .into_iter()
+                        .map(|i| i.to_string())
+                        .collect();
+                    if idx.is_empty() {
+                        "-".to_string()
+                    } else {
+                        idx.join(",")
+                    }
+                })
+                .collect();
+            format!("kernel|{}", vs.join(";"))
+        });
+    }
+
+    /// `divs|<d,d,..>`
+    pub fn observe_divisors(d: &[Uint]) {
+        final_push(|| {
+            let ds: Vec<String> = d.iter().map(|x| x.to_string()).collect();
+            format!("divs|{}", ds.join(","))
+        });
     }
 
     /// Records `"final|<store_dump(rs)>"` when recording is on.
